@@ -74,6 +74,21 @@ let dispatch (fn : string) : jv -> jv = match fn with
   | "spnego_serve" -> serve_j
   | "http_do" -> http_do_j
   | "asrep_verify" -> asrep_verify_j
+  | "marshal_len" -> marshal_len_j
+  | "get_length" -> get_length_j
+  | "len_hdr_bytes" -> len_hdr_bytes_j
+  | "add_app_tag" -> add_app_tag_j
+  | "set_flag" -> set_flag_j
+  | "unset_flag" -> unset_flag_j
+  | "is_flag_set" -> is_flag_set_j
+  | "is_flag_set_orig" -> is_flag_set_orig_j
+  | "kdc_options_widen" -> kdc_options_widen_j
+  | "choice_encode" -> choice_encode_j
+  | "choice_decode" -> choice_decode_j
+  | "gss_frame" -> gss_frame_j
+  | "gss_unframe" -> gss_unframe_j
+  | "krb5_token" -> krb5_token_j
+  | "krb5_untoken" -> krb5_untoken_j
   | "c16_parse" -> c16_parse_j
   | "c16_resolve" -> c16_resolve_j
   | "c16_bool" -> c16_bool_j
